@@ -463,4 +463,4 @@ def check(ctx):
     r9_at_most_once_accounting(ctx)
 
 
-CLAUSE += '; no map into Lifecycle is ever shrunk (a recorded lifecycle override is never un-recorded)'
+CLAUSE += ' Also: no map into Lifecycle is ever shrunk (a recorded lifecycle override is never un-recorded).'
